@@ -128,6 +128,26 @@ def batch_exits_then_failed_launch(chk, n_tasks, jobs):
     return None
 
 
+def sigchld_blocked_at_start(chk):
+    """the signal mask is inherited: `cond run` is started by a program that had SIGCHLD blocked (and did not reset the mask
+    before exec).  The run must still notice that its tasks exit.  (D41: the handler was installed but the signal never
+    delivered; after the first task exited, cond slept in read() for ever.)"""
+    root = implrun.make_project({"COND": 'run_command(name="a", run="true")\nrun_command(name="b", run="touch $COND_OUT/ran", deps=[":a"])\n'})
+
+    def block():
+        signal.pthread_sigmask(signal.SIG_BLOCK, {signal.SIGCHLD})
+
+    p = subprocess.Popen([PY, "-m", "conductor", "run", "//:b"], cwd=root, env=dict(os.environ, PYTHONPATH=SRC), stdout=subprocess.PIPE, stderr=subprocess.PIPE,
+                         start_new_session=True, preexec_fn=block)
+    rc, text, hung = _finish(p, 20)
+    ran = os.path.exists(os.path.join(root, "cond-out", "b.task", "ran"))
+    if hung:
+        return "cond run, started with SIGCHLD blocked in its inherited signal mask, did not terminate after its task had exited; output so far: %r" % text[-300:]
+    if rc != 0 or not ran:
+        return "cond run, started with SIGCHLD blocked, exited %s (dependent executed: %s): %r" % (rc, ran, text[-300:])
+    return None
+
+
 def unrelated_child(chk, helper_rc, task_rc):
     """(b) the cond process owns a child it did not start; it exits just before the task does: its status must not be
     attributed to the task (a dependent of the task runs iff the TASK exited 0), and it must not be waited for"""
@@ -308,6 +328,7 @@ def stopped_task(chk, parallel):
 def reaper_scenarios(chk, tier):
     scen = [("batch-exits-j2", lambda: batch_exits(chk, 2, 2)), ("batch-exits-j3-of-4", lambda: batch_exits(chk, 4, 3)),
             ("batch-exits-then-failed-launch-j3", lambda: batch_exits_then_failed_launch(chk, 3, 3)),
+            ("sigchld-blocked-at-start", lambda: sigchld_blocked_at_start(chk)),
             ("unrelated-child-7-then-0", lambda: unrelated_child(chk, 7, 0)), ("unrelated-child-0-then-3", lambda: unrelated_child(chk, 0, 3)),
             ("fast-exits", lambda: fast_exits(chk, 12 if tier == "quick" else 200)),
             ("many-fast-parallel", lambda: many_fast_parallel(chk, 3 if tier == "quick" else 30)),
